@@ -4,6 +4,7 @@ SPEC = {
         {"comp": "varint", "module": "QV.Model.Varint", "quick": 1500, "thorough": 40000},
         {"comp": "pn", "module": "QV.Model.PacketNumber", "quick": 1500, "thorough": 40000},
         {"comp": "frames", "module": "QV.Model.Frames", "quick": 1500, "thorough": 30000},
+        {"comp": "header", "module": "QV.Model.Header", "quick": 1000, "thorough": 20000},
     ],
     "assumptions": [
         "masks/shifts are modelled arithmetically; the equivalence with the bit-level Rust code is checked by the correspondence on all boundary classes, not proved",
